@@ -121,10 +121,13 @@ def with_items_predicates(ctx, rule):
     # the ones that succeeded meanwhile, minus the ones whose re-run is in
     # progress right now (F30: the old failed execution stays unaccepted)
     ni = ctx.prog.func(WIT + '._get_next_indexes')
-    inprog = check_filter(ctx, rule, WIT + '._get_next_indexes',
-                          lambda s, a: s not in DONE,
-                          'items in progress', attrs=None,
-                          which=lambda x: True)
+    try:
+        inprog = check_filter(ctx, rule, WIT + '._get_next_indexes',
+                              lambda s, a: s not in DONE,
+                              'items in progress', attrs=None,
+                              which=lambda x: True)
+    except AnalysisError:
+        inprog = None   # no such selection at all: reported below
     cand = [x for x in own_nodes(ni.node) if isinstance(x, ast.Assign) and
             isinstance(x.targets[0], ast.Name) and
             x.targets[0].id == 'candidates']
